@@ -75,3 +75,5 @@ pub proof fn vx_lemma_mod_mul(k: int, bs: int)
 pub proof fn vx_lemma_succ_mul(a: int, b: int)
     ensures (a + 1) * b == a * b + b
 { assert((a + 1) * b == a * b + b) by (nonlinear_arith); }
+
+pub open spec fn vx_min(a: int, b: int) -> int { if a <= b { a } else { b } }
